@@ -368,6 +368,16 @@ pub enum ConfigError {
          (RFC 6797 §7.2 forbids the header over plaintext HTTP)"
     )]
     HstsOnPlainHttp(String),
+    /// A `[clusters.<id>.health_check]` block that
+    /// [`validate_health_check_config`] refuses. Without this check the file
+    /// loads, the worker and the main state then refuse the `AddCluster`
+    /// request, and the cluster's frontends and backends are left pointing at
+    /// a cluster that does not exist.
+    #[error("invalid health_check for cluster {cluster_id}: {reason}")]
+    InvalidHealthCheck {
+        cluster_id: String,
+        reason: &'static str,
+    },
 }
 
 /// An HTTP, HTTPS or TCP listener as parsed from the `Listeners` section in the toml
@@ -2171,6 +2181,14 @@ impl FileClusterConfig {
         // PRE: every frontend that converts cleanly must survive into the built
         // cluster — no frontend is silently dropped during conversion.
         let requested_frontend_count = self.frontends.len();
+        if let Some(health_check) = self.health_check.as_ref() {
+            validate_health_check_config(&health_check.to_proto()).map_err(|reason| {
+                ConfigError::InvalidHealthCheck {
+                    cluster_id: cluster_id.to_owned(),
+                    reason,
+                }
+            })?;
+        }
         match self.protocol {
             FileClusterProtocolConfig::Tcp => {
                 let mut has_expect_proxy = None;
